@@ -69,7 +69,7 @@ func (e *Enc) instr(fr *Frame, b *ssa.BasicBlock, in ssa.Instruction, st *State)
 			s := base.t()
 			e.safetyObl(fr, st, "index", x.Pos(), isIndexExpr, tb.And(tb.Le(tb.Int(0), idx), tb.Lt(idx, tb.SLen(s))),
 				NamedTerm{"index", idx}, NamedTerm{"len", tb.SLen(s)})
-			fr.vals[x] = Val{T: []*Term{tb.Fresh("eptr", RefSort)}, Addr: &Addr{elem: true, ref: tb.SRef(s), idx: tb.Add(tb.SOff(s), idx), root: t.Elem()}}
+			fr.vals[x] = Val{T: []*Term{tb.Fresh("eptr", RefSort)}, Addr: &Addr{elem: true, ref: tb.SRef(s), idx: tb.Add(tb.SOff(s), idx), off: tb.SOff(s), rel: idx, root: t.Elem()}}
 		case *types.Pointer: // pointer to array
 			arr := t.Elem().Underlying().(*types.Array)
 			e.safetyObl(fr, st, "index", x.Pos(), isIndexExpr, tb.And(tb.Le(tb.Int(0), idx), tb.Lt(idx, tb.Int(arr.Len()))), NamedTerm{"index", idx})
@@ -121,6 +121,7 @@ func (e *Enc) instr(fr *Frame, b *ssa.BasicBlock, in ssa.Instruction, st *State)
 	case *ssa.MakeInterface:
 		pv := e.val(fr, x.X).t()
 		fr.vals[x] = Val{T: []*Term{tb.Box(e.typeKey(x.X.Type()), e.sortOf(x.X.Type()), pv)}}
+		e.applyTypeInvs(fr, st, x.X.Type(), pv, "box", tb.True(), x.Pos())
 	case *ssa.TypeAssert:
 		e.typeAssert(fr, x, st)
 	case *ssa.MakeSlice:
@@ -591,6 +592,7 @@ func (e *Enc) typeAssert(fr *Frame, x *ssa.TypeAssert, st *State) {
 	ok := tb.IsBox(key, srt, xv)
 	val := tb.Unbox(key, srt, xv)
 	e.assumeWF(tb.True(), x.AssertedType, val)
+	e.applyTypeInvs(fr, st, x.AssertedType, val, "assume", ok, x.Pos())
 	if x.CommaOk {
 		fr.vals[x] = Val{T: []*Term{tb.Ite(ok, val, e.zero(x.AssertedType)), ok}}
 	} else {
@@ -633,12 +635,32 @@ func (e *Enc) mapRegs(mt types.Type) (val, has *regInfo, m *types.Map) {
 	return val, has, m
 }
 
+func (e *Enc) mapLenReg() *regInfo {
+	if r, ok := e.regs["MLEN"]; ok {
+		return r
+	}
+	r := &regInfo{name: "MLEN", sort: arraySort(RefSort, "Int"), typ: types.Typ[types.Int]}
+	e.regs["MLEN"] = r
+	return r
+}
+
+func (e *Enc) mapLen(st *State, m *Term) *Term {
+	l := e.tb.Select(e.reg(st, e.mapLenReg()), m)
+	if !e.wfDone[l.id] && !l.bound {
+		e.wfDone[l.id] = true
+		e.assume(e.tb.True(), e.tb.Ge(l, e.tb.Int(0)))
+	}
+	return l
+}
+
 func (e *Enc) mapInit(st *State, mt types.Type, r *Term) {
 	tb := e.tb
 	val, has, m := e.mapRegs(mt)
 	ks := e.sortOf(m.Key())
 	emptyHas := tb.mk("(as const "+arraySort(ks, "Bool")+")", arraySort(ks, "Bool"), tb.False())
 	e.setReg(st, has, tb.Store(e.reg(st, has), r, emptyHas))
+	lr := e.mapLenReg()
+	e.setReg(st, lr, tb.Store(e.reg(st, lr), r, tb.Int(0)))
 	_ = val
 }
 
@@ -676,6 +698,9 @@ func (e *Enc) mapUpdate(fr *Frame, x *ssa.MapUpdate, st *State) {
 	e.safetyObl(fr, st, "nilmap", x.Pos(), isAnyExpr, tb.Not(tb.Eq(mref, tb.Int(0))))
 	hv := e.reg(st, val)
 	hh := e.reg(st, has)
+	lr := e.mapLenReg()
+	oldLen := e.mapLen(st, mref)
+	e.setReg(st, lr, tb.Store(e.reg(st, lr), mref, tb.Ite(tb.Select(tb.Select(hh, mref), k), oldLen, tb.Add(oldLen, tb.Int(1)))))
 	e.setReg(st, val, tb.Store(hv, mref, tb.Store(tb.Select(hv, mref), k, v)))
 	e.setReg(st, has, tb.Store(hh, mref, tb.Store(tb.Select(hh, mref), k, tb.True())))
 	e.markEscaped(v, 0)
